@@ -22,7 +22,8 @@ RULE = ("histories of 5-60 events drawn from a weighted grammar over kernel even
         "printed by the kernel printer and malformed ones crossed with the four os.kill results. A history is non-trivial when it "
         "calls psutil at least once; distinct = distinct canonical case hash.")
 TRUSTED = ["correspondence harness props/C04.py + props/_c04_kernel.py + pv/ (fake /proc tree; os.kill and os.listdir replaced so that "
-           "thread ids answer kill(0) and have /proc/<tid>/status but are not listed; props/_c04_sched.py line-level thread scheduler)",
+           "thread ids answer kill(0) and have /proc/<tid>/status but are not listed; psutil._pslinux.open_binary replaced to inject "
+           "faults on /proc/<n>/status; props/_c04_sched.py line-level thread scheduler)",
            "hand-written model coq/C04/Model.v of psutil/__init__.py pids/pid_exists/process_iter/is_running/as_dict(keys) and "
            "_pslinux.pids/pid_exists, tied to the code by this run only",
            "formats of the procfs root listing and of /proc/<n>/status (Tgid line) in coq/C04/Spec.v"]
@@ -36,7 +37,8 @@ ASSUMPTIONS = ["every psutil call is atomic with respect to kernel events; in th
                "ppid(); histories where the iteration order of the name set decides whether that call happened are skipped "
                "(OutOfModel); attribute universe of the runs: pid,name,ppid,status,num_threads,cpu_times,cpu_num (attrs=[] runs "
                "with psutil._as_dict_attrnames narrowed to these minus ppid)"]
-EXHAUSTIVE = {"quick": "two-thread schedules 0^i 1^j for i,j < 13; pid_exists over {-1,0..9,2^15,2^22,2^31-1,2^31,2^31+1,2^32,2^63-1,2^63,2^64,10^30} x {listed,thread id,absent}",
+EXHAUSTIVE = {"quick": "status faults {ENOENT,ESRCH,EACCES,EPERM,EIO,EIO-read,no Tgid} x {PID,zombie,2 thread ids,absent,0,-1,2^31-1,2^31,"
+                        "10^30}; two-thread schedules 0^i 1^j for i,j < 13; pid_exists over {-1,0..9,2^15,2^22,2^31-1,2^31,2^31+1,2^32,2^63-1,2^63,2^64,10^30} x {listed,thread id,absent}",
               "thorough": "all 11^1..11^4 event strings over {spawn 1 (2 start values), reap 1, reap 2, new generator, next on generator "
                           "0/1, close 0, cache_clear, is_running on yield 0/1} after a warm-cache prefix; two-thread schedules 0^i 1^j "
                           "for i,j < 18; pid_exists magnitude sweep"}
@@ -46,6 +48,9 @@ BAD = {"bogus": 100, "xyz": 101}
 VALID_CODES = list(range(len(NAMES)))
 MAGS = [-1, 0, 1, 2, 3, 4, 5, 6, 7, 8, 9, 2 ** 15, 2 ** 22, 2 ** 31 - 1, 2 ** 31, 2 ** 31 + 1, 2 ** 32, 2 ** 63 - 1, 2 ** 63,
         2 ** 64, 10 ** 30]
+FAULTS = ["ENOENT", "ESRCH", "EACCES", "EPERM", "EIO", "EIO-read", "notgid"]
+FAULT_ERRNO = {"ENOENT": errno.ENOENT, "ESRCH": errno.ESRCH, "EACCES": errno.EACCES, "EPERM": errno.EPERM, "EIO": errno.EIO,
+               "EIO-read": errno.EIO}
 ATTRS = [None, None, None, None, ["pid"], ["name"], ["pid", "name"], ["status", "status", "name"], ["ppid"],
          ["ppid", "pid", "ppid"], ["num_threads", "cpu_times", "cpu_num"], ["ppid", "name"], [], ["bogus"], ["pid", "xyz"]]
 NGOOD = 12   # ATTRS[:NGOOD] are valid and non-empty or None
@@ -81,7 +86,7 @@ def _rand_hist(rng):
         tab.apply(e)
         evs.append(e)
     n = rng.choice([5, 10, 20, 30, 45, 60])
-    w = [("Spawn", 12), ("Reap", 7), ("Exit", 3), ("Thread", 3), ("ThreadExit", 1), ("Pids", 3), ("PidExists", 8),
+    w = [("Spawn", 12), ("Reap", 7), ("Exit", 3), ("Thread", 3), ("ThreadExit", 1), ("Pids", 3), ("PidExists", 8), ("PidExistsF", 4),
          ("IterNew", 7), ("IterNext", 34), ("IterClose", 3), ("CacheClear", 3), ("RunY", 9), ("Reuse", 5)]
     kinds = [k for k, c in w for _ in range(c)]
     while len(evs) < n:
@@ -101,6 +106,8 @@ def _rand_hist(rng):
             e = ["Pids"]
         elif k == "PidExists":
             e = ["PidExists", rng.choice(MAGS + pids + tids + pids + tids)]
+        elif k == "PidExistsF":
+            e = ["PidExistsF", rng.choice(pids + tids + pids + tids + [0, 9, 2 ** 31 - 1, 2 ** 31, 2 ** 64]), rng.choice(FAULTS)]
         elif k == "IterNew":
             e = ["IterNew", rng.choice(ATTRS)]
             ngen += 1
@@ -211,6 +218,16 @@ def _sweep(variant):
     return evs + [["PidExists", n] for n in MAGS] + [["Pids"]]
 
 
+def _sweep_fault():
+    """pid_exists(n) for a listed PID, a zombie, thread ids, absent numbers, 0 and out-of-range numbers while the open or the
+    read of /proc/<n>/status fails in every modelled way"""
+    evs = [["Spawn", 1, 100], ["Spawn", 5, 100], ["Spawn", 3, 100], ["Exit", 3], ["Thread", 5, 6], ["Thread", 1, 9]]
+    for f in FAULTS:
+        for n in (1, 5, 3, 6, 9, 7, 0, -1, 2 ** 31 - 1, 2 ** 31, 10 ** 30):
+            evs.append(["PidExistsF", n, f])
+    return evs + [["Pids"]]
+
+
 def _features(evs):
     f = []
     started = set()
@@ -262,6 +279,7 @@ def gen_cases(rng, tier):
     cases = []
     for v in range(3):
         cases.append(_hist_case(_sweep(v), "pidexists-sweep"))
+    cases.append(_hist_case(_sweep_fault(), "pidexists-status-fault-sweep"))
     for i in range(n_hist):
         r = rng.random()
         if r < 0.10:
@@ -301,8 +319,8 @@ def gen_cases(rng, tier):
         kill = rng.choice(KILLS)
         pid = rng.choice([2 ** 31, 2 ** 40, 10 ** 30]) if kill == "overflow" else rng.choice([1, 5, 7, 42, 999, PIDMAX])
         names = [rng.choice(LIST_NAMES[:10] + ["5", "7"]) for _ in range(rng.randint(1, 5))]
-        if not any(n.isascii() and n.isdigit() for n in names):
-            names.append("1")
+        if not any(n.isascii() and n.isdigit() for n in names) and rng.random() < 0.7:
+            names.append("1")    # (otherwise: a root listing without any numeric entry -- the fallback must answer False)
         if rng.random() < 0.6:
             pre = [rng.choice(PRE_LINES) for _ in range(rng.randint(0, 4))]
             tg = rng.choice([str(pid), str(pid), "5", "1", "0" + str(pid), "7", "999", "123456789012345678901234567890"])
@@ -330,6 +348,9 @@ def _ev_term(e):
         return "HE (%s %s)" % (k, G.z(e[1]))
     if k == "Thread":
         return "HE (Thread %s %s)" % (G.z(e[1]), G.z(e[2]))
+    if k == "PidExistsF":
+        f = "FNoTgid" if e[2] == "notgid" else "(FErrno %s)" % G.z(FAULT_ERRNO[e[2]])
+        return "HE (PidExistsF %s %s)" % (G.z(e[1]), f)
     if k in ("Pids", "CacheClear"):
         return "HE %s" % k
     if k == "IterNew":
@@ -482,7 +503,7 @@ def oracle(case, coq, impl):
             for g in gens:
                 if g["state"] == "run":
                     g["vanished"] |= gone
-        elif k == "PidExists":
+        elif k in ("PidExists", "PidExistsF"):
             if tag == "Exc" and ev[1] >= 0 and not (ev[1] == 0 and not tab.procs):
                 return where + "pid_exists raised %r" % (out,)
         elif k == "IterNew":
@@ -649,6 +670,49 @@ class _Patches:
         os.listdir, os.kill = self.real_listdir, self.real_kill
 
 
+class _BadRead:
+    """a binary file whose iteration fails with EIO"""
+
+    def __enter__(self):
+        return self
+
+    def __exit__(self, *a):
+        return False
+
+    def __iter__(self):
+        raise OSError(errno.EIO, "Input/output error")
+
+    def close(self):
+        pass
+
+
+def _pid_exists_faulted(psutil, root, n, fault):
+    """psutil.pid_exists(n) while _pslinux.open_binary fails (or misbehaves) for /proc/<n>/status"""
+    import io
+    target = "%s/%s/status" % (root, n)
+    real = psutil._pslinux.open_binary
+    hits = []
+
+    def fake_open_binary(path, *a, **kw):
+        if path == target:
+            hits.append(1)
+            if fault == "notgid":
+                return io.BytesIO(b"Name:\tproc\nUmask:\t0022\nState:\tS (sleeping)\nPid:\t%d\nPPid:\t1\n" % (n,))
+            if fault == "EIO-read":
+                return _BadRead()
+            raise OSError(FAULT_ERRNO[fault], os.strerror(FAULT_ERRNO[fault]), path)   # -> the matching OSError subclass
+        return real(path, *a, **kw)
+    psutil._pslinux.open_binary = fake_open_binary
+    try:
+        try:
+            r = psutil.pid_exists(n)
+            return T("Bool", r) if isinstance(r, bool) else T("NotBool", repr(r))
+        except Exception as e:  # noqa
+            return Exc(exc_name(e))
+    finally:
+        psutil._pslinux.open_binary = real
+
+
 def _reset(psutil):
     psutil._pmap = {}
     psutil._pids_reused.clear()
@@ -714,6 +778,8 @@ def _run_hist(case, env, psutil):
                         out = T("Bool", r) if isinstance(r, bool) else T("NotBool", repr(r))
                     except Exception as e:  # noqa
                         out = Exc(exc_name(e))
+                elif k == "PidExistsF":
+                    out = _pid_exists_faulted(psutil, root, ev[1], ev[2])
                 elif k == "IterNew":
                     gens.append(psutil.process_iter() if ev[1] is None else psutil.process_iter(attrs=list(ev[1])))
                     out = T("Ret")
